@@ -11,25 +11,22 @@ image without samples), m ≥ 1 scans, k ≥ 1 distinct labels of at most 32 cha
 channels, the requested one (`ci`) among them and recognisable in the 7-character channel row, the rows
 reader returns for every element, in order of first appearance, pixel [sample, scan] = the exported
 value of the requested channel.
-(`hscans`: `int(str(s)[:16]) = s`, the external conversion of scan numbers; `hsampleHash`,
-`hvalueHash`: `np.genfromtxt` cuts a sample row at a `#`.) -/
+Sample names, labels and values are arbitrary strings: a `#` in any of them is data (`comments=None`).
+(`hscans`: `int(str(s)[:16]) = s`, the external conversion of scan numbers.) -/
 theorem readRows_render (x : Ext α) (sh : Nat → String) (comma : Bool) (a : Acq) (ci : Nat)
     (hm : 0 < a.nscans) (hk : 0 < a.elements.length)
     (hdistinct : a.elements.Nodup) (hlabels : ∀ e ∈ a.elements, trunc 32 e = e)
     (hci : ci < a.channels.length)
     (hchans : ∀ c, c < a.channels.length → (trunc 7 (a.chan c) == a.chan ci) = (c == ci))
-    (hscans : ∀ s, s < a.nscans → x.readInt (trunc 16 (sh s)) = some (s : Int))
-    (hsampleHash : ∀ s ∈ a.samples, hasHash s = false)
-    (hvalueHash : ∀ i, i < a.samples.length → ∀ s, s < a.nscans → ∀ e, e < a.elements.length → ∀ c, c < a.channels.length →
-      hasHash (a.value i s e c) = false) :
+    (hscans : ∀ s, s < a.nscans → x.readInt (trunc 16 (sh s)) = some (s : Int)) :
     readRows x comma (a.chan ci) (renderRows sh a) = some (specImg x comma a ci) :=
-  readRows_render_aux x sh comma a ci ⟨hm, hk, hdistinct, hlabels, hci, hchans, hscans, hsampleHash, hvalueHash⟩
+  readRows_render_aux x sh comma a ci ⟨hm, hk, hdistinct, hlabels, hci, hchans, hscans⟩
 
 /-- **Samples in columns.** The same for the columns reader, for n ≥ 1 samples with non-empty names,
 at least two lines of the requested channel (`2 ≤ k · m`: two scans as in the property's quantifier, or
 two elements), labels that the decimal-comma replacement leaves alone, and a requested channel whose
-name occurs as a substring of a `MainRuns` line only in that line's channel field; no `#` in the sample
-names nor in the lines of the requested channel. -/
+name occurs as a substring of a `MainRuns` line only in that line's channel field.  A `#` in a sample
+name, a label or a value is data. -/
 theorem readCols_render (x : Ext α) (sh : Nat → String) (comma : Bool) (a : Acq) (ci : Nat)
     (hn : 0 < a.samples.length) (hsamples : ∀ s ∈ a.samples, s ≠ "") (hm : 0 < a.nscans)
     (hk : 0 < a.elements.length) (hlines : 2 ≤ a.elements.length * a.nscans) (hdistinct : a.elements.Nodup)
@@ -41,14 +38,10 @@ theorem readCols_render (x : Ext α) (sh : Nat → String) (comma : Bool) (a : A
     (hlabel : ∀ e ∈ a.elements, hasSub (a.chan ci) e = false)
     (hvalue : ∀ i, i < a.samples.length → ∀ s, s < a.nscans → ∀ e, e < a.elements.length → ∀ c, c < a.channels.length →
       hasSub (a.chan ci) (a.value i s e c) = false)
-    (hscans : ∀ s, s < a.nscans → x.readInt (fixDec comma (sh s)) = some (s : Int))
-    (hsampleHash : ∀ s ∈ a.samples, hasHash s = false) (hscanHash : ∀ s, s < a.nscans → hasHash (sh s) = false)
-    (hlabelHash : ∀ e ∈ a.elements, hasHash e = false) (hchanHash : hasHash (a.chan ci) = false)
-    (hvalueHash : ∀ i, i < a.samples.length → ∀ s, s < a.nscans → ∀ e, e < a.elements.length → hasHash (a.value i s e ci) = false) :
+    (hscans : ∀ s, s < a.nscans → x.readInt (fixDec comma (sh s)) = some (s : Int)) :
     readCols x comma (a.chan ci) (renderCols sh a) = some (specImg x comma a ci) :=
   readCols_render_aux x sh comma a ci
-    ⟨hn, hsamples, hm, hk, hlines, hdistinct, hlabels, hci, hself, hmain, heol, hscan, hlabel, hvalue, hscans,
-     hsampleHash, hscanHash, hlabelHash, hchanHash, hvalueHash⟩
+    ⟨hn, hsamples, hm, hk, hlines, hdistinct, hlabels, hci, hself, hmain, heol, hscan, hlabel, hvalue, hscans⟩
 
 /-- **The boundary of the columns reader**: an export with a single line of the requested channel
 (one scan of one element — below the 2 scans of the property's quantifier) is not imported, whatever
@@ -57,9 +50,9 @@ theorem readCols_single_line (x : Ext α) (comma : Bool) (chan : String) (first 
     (hsel : (lineStarts line && lineHas chan line) = true) (hhdr : lineStarts hdr = false)
     (hline : (gfSplit (line.map (fixDec comma))).isEmpty = false) :
     readCols x comma chan [first, hdr, line] = none := by
-  unfold readCols
+  unfold readCols readColsWith
   simp only [List.filter_cons, hhdr, Bool.false_and, Bool.false_eq_true, if_false, hsel, if_true, List.filter_nil]
-  simp only [gfLines, List.map_cons, List.map_nil, List.filter_cons, hline, Bool.not_false, if_true, List.filter_nil,
+  simp only [gfLinesWith, List.map_cons, List.map_nil, List.filter_cons, hline, Bool.not_false, if_true, List.filter_nil,
     List.length_cons, List.length_nil, Nat.zero_add, BEq.rfl]
   split <;> rfl
 
@@ -143,16 +136,97 @@ theorem readRows_trailing_blank (x : Ext α) (comma : Bool) (chan : String) (t :
   have hget : ∀ i, i < 4 → (t ++ [["\n"]]).getD i [""] = t.getD i [""] := by
     intro i hi
     simp only [List.getD, List.getElem?_append_left (show i < t.length by omega)]
-  have hbody : gfLines comma ((t ++ [["\n"]]).drop 4) = gfLines comma (t.drop 4) := by
+  have hbody : gfLinesWith gfSplit comma ((t ++ [["\n"]]).drop 4) = gfLinesWith gfSplit comma (t.drop 4) := by
     rw [List.drop_append_of_le_length h4]
-    simp only [gfLines, List.map_append, List.map_cons, List.map_nil, List.filter_append, gfSplit_blank, List.filter_cons,
+    simp only [gfLinesWith, List.map_append, List.map_cons, List.map_nil, List.filter_append, gfSplit_blank, List.filter_cons,
       List.isEmpty_nil, Bool.not_true, Bool.false_eq_true, if_false, List.filter_nil, List.append_nil]
-  unfold readRows
+  unfold readRows readRowsWith
   simp only [hget 0 (by omega), hget 1 (by omega), hget 2 (by omega), hget 3 (by omega)]
   split
   · rfl
-  · unfold readRowsH
+  · unfold readRowsHWith
     simp only [hbody]
+
+/-! ## the comment handling that e68affa removed
+
+Before e68affa the three `np.genfromtxt` calls ran with NumPy's default `comments="#"`
+(`readColsOld` / `readRowsOld`: the same readers with the line splitter `gfSplitOld`, which cuts a line
+at the first `#`).  The theorems above hold for the readers as they are now, with arbitrary sample names
+and labels; the three concrete statements below record what the old mechanism did with a `#`
+(evaluated by `decide +kernel`: the kernel computes the readers, no axiom is added — they are facts about one input each, not general claims), and
+`readColsOld_eq` / `readRowsOld_eq` say that on files without a `#` the fix changed nothing. -/
+
+def dig (n : Nat) : Char := Char.ofNat (48 + n)
+
+/-- external conversions of the concrete inputs: values stay text, `int` knows the scans 0 and 1 -/
+def regExt : Ext String :=
+  { parse := fun s => s, readInt := fun t => if t = "0" then some 0 else if t = "1" then some 1 else none }
+
+/-- two samples `S#1`, `S2`, two scans, one element; sample `i`, scan `s` holds `1 + i + 2 s` -/
+def hashAcq : Acq :=
+  { samples := ["S#1", "S2"], nscans := 2, elements := ["31P"], channels := ["Counter"],
+    value := fun i s _ _ => String.ofList [dig (1 + i + 2 * s)] }
+
+/-- the same acquisition with a `#` in the label instead -/
+def hashLabelAcq : Acq := { hashAcq with samples := ["S1", "S2"], elements := ["44Ca#"] }
+
+def regShow (s : Nat) : String := String.ofList [dig s]
+
+/-- **Regression (old mechanism, columns layout).** The two-sample export whose first sample is named
+`S#1`: with the comment cut the sample count is taken from the text before the `#`, sample `S2` is
+dropped **without an error** (an image of one sample: `[[1, 3]]`); the reader as it is now returns both
+samples, which is the specification. -/
+theorem readCols_old_drops_samples :
+    renderCols regShow hashAcq =
+      [["", "", "", "", "S#1", "S2", "\n"], ["", "", "", "", "<Identifier>", "<Identifier>", "\n"],
+       ["MainRuns", "0", "31P", "Counter", "1", "2", "\n"], ["MainRuns", "1", "31P", "Counter", "3", "4", "\n"]] ∧
+    readColsOld regExt false "Counter" (renderCols regShow hashAcq) = some { names := ["31P"], planes := [[["1", "3"]]] } ∧
+    readCols regExt false "Counter" (renderCols regShow hashAcq) = some { names := ["31P"], planes := [[["1", "3"], ["2", "4"]]] } ∧
+    specImg regExt false hashAcq 0 = { names := ["31P"], planes := [[["1", "3"], ["2", "4"]]] } := by
+  decide +kernel
+
+/-- **Regression (old mechanism, rows layout).** The same acquisition in the rows layout: the comment
+cut leaves one field of the row `S#1,<Identifier>,1,3,` and the old reader raises; the reader as it is
+now imports the specification image. -/
+theorem readRows_old_raises :
+    (renderRows regShow hashAcq).drop 4 = [["S#1", "<Identifier>", "1", "3", "\n"], ["S2", "<Identifier>", "2", "4", "\n"]] ∧
+    readRowsOld regExt false "Counter" (renderRows regShow hashAcq) = none ∧
+    readRows regExt false "Counter" (renderRows regShow hashAcq) = some (specImg regExt false hashAcq 0) := by
+  decide +kernel
+
+/-- **Regression (old mechanism, `#` in an element label).** The columns reader raised (the `MainRuns`
+lines are cut to three fields, shorter than the record); the rows reader, whose header rows never went
+through `genfromtxt`, imported.  Now both import the specification image. -/
+theorem readCols_old_label_raises :
+    readColsOld regExt false "Counter" (renderCols regShow hashLabelAcq) = none ∧
+    readRowsOld regExt false "Counter" (renderRows regShow hashLabelAcq) = some (specImg regExt false hashLabelAcq 0) ∧
+    readCols regExt false "Counter" (renderCols regShow hashLabelAcq) = some (specImg regExt false hashLabelAcq 0) ∧
+    readRows regExt false "Counter" (renderRows regShow hashLabelAcq) = some (specImg regExt false hashLabelAcq 0) := by
+  decide +kernel
+
+/-- **On a file without a `#` the fix changed nothing** (columns layout): for every table none of whose
+fields contains a `#`, the reader with the comment cut and the reader without return the same image or
+both raise. -/
+theorem readColsOld_eq (x : Ext α) (comma : Bool) (chan : String) (t : Table)
+    (h : ∀ r ∈ t, ∀ g ∈ r, hasHash g = false) :
+    readColsOld x comma chan t = readCols x comma chan t := by
+  unfold readColsOld readCols readColsWith
+  cases t with
+  | nil => rfl
+  | cons first rest =>
+    have h1 : gfSplitOld first = gfSplit first := gfSplitOld_eq first (h first List.mem_cons_self)
+    have h2 : gfLinesWith gfSplitOld comma (rest.filter (fun r => lineStarts r && lineHas chan r))
+        = gfLinesWith gfSplit comma (rest.filter (fun r => lineStarts r && lineHas chan r)) :=
+      gfLinesOld_eq comma _ (fun r hr => h r (List.mem_cons_of_mem _ (List.mem_filter.mp hr).1))
+    simp only [h1, h2]
+
+/-- … and in the rows layout, where only the sample rows (everything after the four header rows) ever
+went through `genfromtxt`: a `#` in a header row (an element label) never mattered. -/
+theorem readRowsOld_eq (x : Ext α) (comma : Bool) (chan : String) (t : Table)
+    (h : ∀ r ∈ t.drop 4, ∀ g ∈ r, hasHash g = false) :
+    readRowsOld x comma chan t = readRows x comma chan t := by
+  unfold readRowsOld readRows readRowsWith readRowsHWith
+  simp only [gfLinesOld_eq comma (t.drop 4) h]
 
 /-! ## sniffing -/
 
@@ -449,8 +523,6 @@ theorem load_text_cols (x : Ext V) (sh : Nat → String) (delim : Char) (a : Acq
 
 section examples
 
-def dig (n : Nat) : Char := Char.ofNat (48 + n)
-
 def exAcq : Acq :=
   { samples := ["Sample 1", "2"], nscans := 2, elements := ["31P", "56Fe | 56Fe.16O"],
     channels := ["X [u]", "Y", "Time", "Analog", "Counter"],
@@ -465,25 +537,21 @@ def exExt : Ext String :=
 Analog (3) channel of the example, so all theorems above apply to it -/
 example : RowsOK exExt exShow exAcq 4 :=
   { nscans := by decide, nelements := by decide, distinct := by decide,
-    labels := by decide, chanIdx := by decide, chans := by decide, scans := by decide,
-    sampleHash := by decide, valueHash := by decide }
+    labels := by decide, chanIdx := by decide, chans := by decide, scans := by decide }
 
 example : RowsOK exExt exShow exAcq 3 :=
   { nscans := by decide, nelements := by decide, distinct := by decide,
-    labels := by decide, chanIdx := by decide, chans := by decide, scans := by decide,
-    sampleHash := by decide, valueHash := by decide }
+    labels := by decide, chanIdx := by decide, chans := by decide, scans := by decide }
 
 example : ColsOK exExt exShow false exAcq 4 :=
   { nsamples := by decide, sampleNames := by decide, nscans := by decide, nelements := by decide, lines := by decide, distinct := by decide,
     labels := by decide, chanIdx := by decide, chanSelf := by decide, chanMain := by decide, chanEol := by decide,
-    chanScan := by decide, chanLabel := by decide, chanValue := by decide, scans := by decide,
-    sampleHash := by decide, scanHash := by decide, labelHash := by decide, chanHash := by decide, valueHash := by decide }
+    chanScan := by decide, chanLabel := by decide, chanValue := by decide, scans := by decide }
 
 example : ColsOK exExt exShow true exAcq 3 :=
   { nsamples := by decide, sampleNames := by decide, nscans := by decide, nelements := by decide, lines := by decide, distinct := by decide,
     labels := by decide, chanIdx := by decide, chanSelf := by decide, chanMain := by decide, chanEol := by decide,
-    chanScan := by decide, chanLabel := by decide, chanValue := by decide, scans := by decide,
-    sampleHash := by decide, scanHash := by decide, labelHash := by decide, chanHash := by decide, valueHash := by decide }
+    chanScan := by decide, chanLabel := by decide, chanValue := by decide, scans := by decide }
 
 /-- and the two channels really are different data: `analog_vs_counter` applies with `ia = 3`, `ic = 4`,
 and at every pixel the Analog value differs from the Counter value (so the two images differ there) -/
@@ -497,22 +565,42 @@ def exAcq' : Acq := { exAcq with value := fun i s e c => if c = 4 then "9" else 
 example : ∀ i s e, exAcq'.value i s e 3 = exAcq.value i s e 3 := by intro i s e; rfl
 example : RowsOK exExt exShow exAcq' 3 :=
   { nscans := by decide, nelements := by decide, distinct := by decide,
-    labels := by decide, chanIdx := by decide, chans := by decide, scans := by decide,
-    sampleHash := by decide, valueHash := by decide }
+    labels := by decide, chanIdx := by decide, chans := by decide, scans := by decide }
 example : ColsOK exExt exShow false exAcq' 3 :=
   { nsamples := by decide, sampleNames := by decide, nscans := by decide, nelements := by decide, lines := by decide, distinct := by decide,
     labels := by decide, chanIdx := by decide, chanSelf := by decide, chanMain := by decide, chanEol := by decide,
-    chanScan := by decide, chanLabel := by decide, chanValue := by decide, scans := by decide,
-    sampleHash := by decide, scanHash := by decide, labelHash := by decide, chanHash := by decide, valueHash := by decide }
+    chanScan := by decide, chanLabel := by decide, chanValue := by decide, scans := by decide }
 
 /-- `readRows_render` with no sample at all: the image without samples -/
 def exAcq0 : Acq := { exAcq with samples := [] }
 example : RowsOK exExt exShow exAcq0 4 :=
   { nscans := by decide, nelements := by decide, distinct := by decide,
-    labels := by decide, chanIdx := by decide, chans := by decide, scans := by decide,
-    sampleHash := by decide, valueHash := by decide }
+    labels := by decide, chanIdx := by decide, chans := by decide, scans := by decide }
 example : readRows exExt false "Counter" (renderRows exShow exAcq0) = some { names := ["31P", "56Fe | 56Fe.16O"], planes := [[], []] } := by
   decide
+
+/-- arbitrary sample names and isotope labels: an acquisition with a `#` in every sample name, in every
+label and in every value of a channel that is not read meets the hypotheses of `readRows_render`,
+`readCols_render` and of every theorem stated with `RowsOK` / `ColsOK` -/
+def exAcqH : Acq :=
+  { samples := ["Sample #1", "#2"], nscans := 2, elements := ["44Ca#", "#31P"], channels := ["X [u]", "Counter"],
+    value := fun i s e c => if c = 0 then "#" else String.ofList [dig i, '.', dig s, dig e] }
+example : RowsOK exExt exShow exAcqH 1 :=
+  { nscans := by decide, nelements := by decide, distinct := by decide,
+    labels := by decide, chanIdx := by decide, chans := by decide, scans := by decide }
+example : ∀ b, ColsOK exExt exShow b exAcqH 1 := by
+  intro b
+  cases b <;> exact
+    { nsamples := by decide, sampleNames := by decide, nscans := by decide, nelements := by decide, lines := by decide, distinct := by decide,
+      labels := by decide, chanIdx := by decide, chanSelf := by decide, chanMain := by decide, chanEol := by decide,
+      chanScan := by decide, chanLabel := by decide, chanValue := by decide, scans := by decide }
+example : (renderText ',' (renderCols exShow exAcqH)).take 4 =
+    [",,,,Sample #1,#2,\n", ",,,,<Identifier>,<Identifier>,\n", "MainRuns,0,44Ca#,X [u],#,#,\n", "MainRuns,1,44Ca#,X [u],#,#,\n"] := by decide
+example : (specImg exExt false exAcqH 1).names = ["44Ca#", "#31P"] ∧ (specImg exExt false exAcqH 1).pixel 1 0 1 = some "0.11" := by decide
+
+/-- `readColsOld_eq` / `readRowsOld_eq`: the example export carries no `#` -/
+example : ∀ r ∈ renderCols exShow exAcq, ∀ g ∈ r, hasHash g = false := by decide
+example : ∀ r ∈ (renderRows exShow exAcq).drop 4, ∀ g ∈ r, hasHash g = false := by decide
 
 /-- `readCols_single_line`: one scan of one element -/
 example : (lineStarts ["MainRuns", "0", "31P", "Counter", "1.0", "\n"] && lineHas "Counter" ["MainRuns", "0", "31P", "Counter", "1.0", "\n"]) = true ∧
@@ -529,24 +617,21 @@ def exExtV : Ext V :=
 (Time is channel 2, Counter 4, Analog 3; the example file has no comma outside the delimiters) -/
 example : RowsOK exExtV exShow exAcq 2 :=
   { nscans := by decide, nelements := by decide, distinct := by decide,
-    labels := by decide, chanIdx := by decide, chans := by decide, scans := by decide,
-    sampleHash := by decide, valueHash := by decide }
+    labels := by decide, chanIdx := by decide, chans := by decide, scans := by decide }
 
 example : ∀ b, ColsOK exExtV exShow b exAcq 2 := by
   intro b
   cases b <;> exact
     { nsamples := by decide, sampleNames := by decide, nscans := by decide, nelements := by decide, lines := by decide, distinct := by decide,
       labels := by decide, chanIdx := by decide, chanSelf := by decide, chanMain := by decide, chanEol := by decide,
-      chanScan := by decide, chanLabel := by decide, chanValue := by decide, scans := by decide,
-      sampleHash := by decide, scanHash := by decide, labelHash := by decide, chanHash := by decide, valueHash := by decide }
+      chanScan := by decide, chanLabel := by decide, chanValue := by decide, scans := by decide }
 
 example : ∀ b, ColsOK exExtV exShow b exAcq 4 := by
   intro b
   cases b <;> exact
     { nsamples := by decide, sampleNames := by decide, nscans := by decide, nelements := by decide, lines := by decide, distinct := by decide,
       labels := by decide, chanIdx := by decide, chanSelf := by decide, chanMain := by decide, chanEol := by decide,
-      chanScan := by decide, chanLabel := by decide, chanValue := by decide, scans := by decide,
-      sampleHash := by decide, scanHash := by decide, labelHash := by decide, chanHash := by decide, valueHash := by decide }
+      chanScan := by decide, chanLabel := by decide, chanValue := by decide, scans := by decide }
 
 example : exAcq.chan 2 = "Time" ∧ exAcq.chan 4 = "Counter" ∧ exAcq.chan 3 = "Analog" := by decide
 example : ∀ r ∈ renderCols exShow exAcq, ∀ f ∈ r, hasSub "," f = false := by decide
